@@ -74,6 +74,7 @@ class Refs:
         self.binary = binary
         self.map = {}
         self.processes = 0
+        self.crash_alone = []
 
     def ensure(self, keys):
         need = sorted(k for k in keys if k not in self.map)
@@ -82,10 +83,14 @@ class Refs:
         cmds = [["one", json.dumps(key_to_op(k), ensure_ascii=True)] for k in need]
         for (i, code, lines) in fanout(self.binary, cmds, "refs"):
             ops, viols, _, err = parse_run(lines)
-            if code != 0 or len(ops) != 1:
-                raise C.HarnessError("reference process for %r failed (exit %d): %s" % (need[i], code, "\n".join(lines[-20:])))
-            self.map[need[i]] = ops[0][1]
             self.processes += 1
+            if code != 0 or len(ops) != 1:
+                # the operation kills the process even when it runs alone (e.g. unbounded recursion of a grammar that
+                # is not well-founded): that is not a statement about histories, so it is recorded, never judged
+                self.map[need[i]] = "CRASH-ALONE:%d" % code
+                self.crash_alone.append(need[i])
+                continue
+            self.map[need[i]] = ops[0][1]
 
 
 def run_scenario(binary, scenario, verbose=False):
@@ -123,8 +128,10 @@ def failure_classes(binary, refs, scenario):
     rc, lines, err = run_scenario(binary, scenario)
     ops, viols, _, _ = parse_run(lines)
     if rc != 0:
-        # the single operations must survive alone (Refs.ensure raises a harness error otherwise)
+        # the single operations must survive alone
         refs.ensure(set(scenario_keys(scenario)))
+        if any(refs.map[k].startswith("CRASH-ALONE") for k in scenario_keys(scenario)):
+            return []
         return [("runner-crash", "", {"exit": rc, "stderr": err[-500:]})]
     refs.ensure({o[5] for o in ops})
     found = []
@@ -256,7 +263,7 @@ def run(tier, seed):
                 evaluations += 1
                 ops_total += len(ops)
                 for k, v in probes.items():
-                    totals[k] = totals.get(k, 0) + v
+                    totals[k] = max(totals.get(k, 0), v) if k.startswith("max_") else totals.get(k, 0) + v
                 for (oid, oh, ok, prefix, nt, key, _sem) in ops:
                     if nt:
                         distinct.add(hash((variant, prefix, key)))
@@ -271,10 +278,14 @@ def run(tier, seed):
                 for (rs, ops, viols, probes) in parsed[:2]:
                     sc = json.loads(subprocess.run([vbin, "gen", "--seed", str(rs)], stdout=subprocess.PIPE, env={}).stdout)
                     samples.append({"run_seed": rs, "threads": sc["threads"], "heap_pre": sc["heap_pre"], "history": sc["ops"]})
-    for (variant, rs, code, tail) in crashed[:3]:
+    runs_lost = 0
+    for (variant, rs, code, tail) in crashed[:50]:
         vbin, refs = env_of[variant]
         sc = json.loads(subprocess.run([vbin, "gen", "--seed", str(rs)], stdout=subprocess.PIPE, env={}).stdout)
         refs.ensure(set(scenario_keys(sc)))
+        if any(refs.map[k].startswith("CRASH-ALONE") for k in scenario_keys(sc)):
+            runs_lost += 1
+            continue  # explained by an operation that kills the process on its own
         rc1, _, err1 = run_scenario(vbin, sc)
         rc2, _, err2 = run_scenario(vbin, sc)
         if rc1 == 0 or rc2 == 0:
@@ -340,7 +351,7 @@ def run(tier, seed):
     coverage = {
         "evaluations": evaluations,
         "distinct_nontrivial": len(distinct),
-        "rule": ("one evaluation = one simulated run = one fresh process executing a seeded history of 4-16 operations (new_input / drop_input / parse via "
+        "rule": ("one evaluation = one simulated run = one fresh process executing a seeded history of 4-16 operations (one run in forty: 48-197 operations) (new_input / drop_input / parse via "
                  "try_parse|try_parse_partial|try_check|try_check_partial on &str|&String|Position|Span / reparse / clone / drop_result) on 1-3 baton-scheduled OS threads "
                  "against the derive-generated parsers of the corpus (corpus/index.txt); distinct_nontrivial = number of distinct (variant, digest of the history prefix, operation) "
                  "tuples whose operation was preceded in its run by an operation that used the stack grammar, failed, or freed an input object"),
@@ -349,6 +360,8 @@ def run(tier, seed):
         "runs_per_variant": {v: n for (v, _, _, n) in phases},
         "reference_processes": sum(r.processes for (_, _, r, _) in phases),
         "distinct_operations": sum(len(r.map) for (_, _, r, _) in phases),
+        "runs_lost_to_operations_that_crash_alone": runs_lost,
+        "operations_that_crash_alone": sorted(set(k for (_, _, r, _) in phases for k in r.crash_alone))[:10],
         "miri_runs": miri_runs,
         "miri_note": "thorough tier only: 3 threads x 4 operations on one shared and three private input objects under Miri's seeded preemptive scheduler (-Zmiri-preemption-rate=0.1), release profile so the unchecked slicing paths run under the UB / data-race detector",
         "probes": totals,
